@@ -6,6 +6,50 @@ BASE = "cd /repo && /venv/bin/python -m pytest -ra -q -p no:cacheprovider --time
 
 # pid -> (technique, level text, level note (undecided residue / trusted base), design ref)
 CHECKS = {
+ 'C01': ('gate dominance + def-use/sibling rules over the creation path (AST/CFG/call graph); decision-table evaluation of the byte-order labelling',
+         "static analysis of the disciplines creation depends on: supported-type gate dominates every reachable file-system effect; every written chunk is the first chunk or cast to its dtype; every chunk producer converts with the caller's dtype (sibling rule over all yields); length accounting pairs each write with the accumulator; descriptor fields come from the first chunk; the byte-order labelling is evaluated as an 8-cell decision table; fill defaults decided by `is None`.",
+         'does not decide bit-pattern equality with the NumPy reference, chunklen-invariance or the fill-function index grid. Trusted: NumPy conversion semantics.',
+         'DESIGN.md section 4 C01'),
+ 'C02': ('table agreement (descriptor key set, value-set propagation of arrayorder, byte-order decision table vs inverse table, docs rows) + who-may-touch the data file + must-follow of the length commit',
+         "static analysis: written key set == documented six keys and survives rewrites; arrayorder written is 'C' on every path; closed set of data-file writers with a commit after every length change; committer writes the shape it stores; writer/reader byte-order tables are mutually inverse in all 8 cells; opener branches agree on dtype/shape/order; file names in code == names in README text and docs/design.rst.",
+         "does not decide that the bytes decode to the API's values for an independent reader, nor size == prod(shape) x itemsize as a fact about files for all histories.",
+         'DESIGN.md section 4 C02'),
+ 'C03': ('def-use + CFG ordering rules, order-type enumeration of the truncate guard, monomial normal form of the byte count, attribute-ownership of the cached shape',
+         'static analysis: cast-and-check before write, seek-end before write, never-truncating open modes, by-path overwrite only when empty, committed count == written count, truncate guard decided on all weak orderings of (0, newlen, len), byte count monomial, cached shape/size/dtype assigned only in __init__ and the committer, recovery handler shape, no unguarded next().',
+         'does not decide equality with the NumPy model over whole histories. Trusted: NumPy slicing/casting semantics by delegation.',
+         'DESIGN.md section 4 C03'),
+ 'C04': ('role-resolved def-use rules on the ragged append/indexing/truncate paths + R-FLOW of indextype + order-type enumeration of the shrink guard',
+         'static analysis: integer gate dominates the index read; values[slice(*indices[item])] with roles not swapped; index row built from running values length and item length; indextype validated and forwarded to every creation of the indices array; items converted with the array dtype on every path (byte order included); commits and top-level descriptor follow every append; truncate by NumPy slicing of the verbatim index with the guard decided on all order types.',
+         'does not decide subarray contents for all k and histories; out-of-range index behaviour is delegated to NumPy.',
+         'DESIGN.md section 4 C04'),
+ 'C05': ('role-resolved R-FLOW / R-POST / R-ORDER rules over the ragged operations + key-set sibling agreement',
+         'static analysis: start offset = values length + returned increments; first row [0, len(first)]; descriptor key sets of writer and in-memory dict agree with sources not swapped; every length change is followed on all normal paths by both commits and the top-level descriptor update (len from indices, size from values); shrink order and cut point; no primitive write in raggedarray.py.',
+         'does not decide the inductive index-row invariant as a fact about file contents.',
+         'DESIGN.md section 4 C05'),
+ 'C08': ('must-follow of README regeneration after every README-relevant state change (CFG), call-graph-derived dependency of the README on descriptor keys, stale-map / stale-handle typestate, registry agreement',
+         'static analysis: committer, asarray and every ragged mutator regenerate the README after their last relevant state change on all normal paths; the ragged README is not generated inside an open sub-array context after a commit nor through a handle whose sub-array was replaced; README language lists equal the registry key sets and use the same dispatcher; metadata callbacks follow every unlink/creating write; wording thresholds equal listing thresholds.',
+         'does not decide byte equality of README with a regenerated text.',
+         'DESIGN.md section 4 C08'),
+ 'C09': ('R-RECOVER: lexical try/handler analysis + property-inlined monomial normal form of the recovery truncation + accumulator def-use',
+         'static analysis: every data write of iterappend lies in a try whose catch-all handler commits completed chunks, cuts the file to committed element count x item size after the commit and re-raises; accumulator only adds appender returns; checker compares whole trailing shapes without zip truncation or rank promotion and converts on every path; iterable consumption is protected.',
+         'does not decide behaviour under real kernel write failures at byte offsets, nor whether the handler itself can complete under the same fault.',
+         'DESIGN.md section 4 C09'),
+ 'C10': ('R-RECOVER over the ragged append sites + validate-before-first-write ordering rules',
+         'static analysis: the three ragged write sites are checked for a recovering handler (absent on this code base: three known findings, one per construct); decided in addition: values write precedes index-row write, item length taken from the raw item before the first write, index row shape, counters increased after both writes, checker rules shared with C09.',
+         'known findings: no recovery path exists for ragged appends (design-level gap). Does not decide actual failure offsets or index overflow of small index types.',
+         'DESIGN.md section 4 C10'),
+ 'C14': ('taint analysis (copies under held context) + verbatim R-FLOW + order-type enumeration / constant folding of the validation tests',
+         'static analysis of the decided clauses only: iterchunks yields copies of map[framestart:frameend] inside the held context; five frame parameters forwarded verbatim; totallen = endindex - startindex; defaults substituted exactly when None; partial-frame guard depends on the covered length; iterindices raises exactly when not (0 <= start < end <= n) on all weak orderings; fit_frames validation folded over sample values and preceding every return.',
+         'NOT decided: the frame arithmetic itself (count of full frames, remainder value) — the core of the property; an off-by-one inside fit_frames is invisible to this check.',
+         'DESIGN.md section 4 C14'),
+ 'C15': ('verbatim R-FLOW of copy parameters + sibling rule over chunk producers + empty-source belief rules + gate dominance of same-path rejection + archive rules',
+         'static analysis: copy() forwards path/dtype/chunklen/accessmode/overwrite and a fresh metadata dict; the Array branch of the chunk generator applies dtype and handles length 0; ragged copy iterates range(len(self)) and creates an empty copy for an empty source; asraggedarray validates the first item before the first effect; same-path rejection precedes every effect; archive validated/exclusive/whole-directory.',
+         'does not decide value equality of copies, byte-identical tar extraction, or independence as an observed fact.',
+         'DESIGN.md section 4 C15'),
+ 'C19': ('R-SHARE ownership-shape analysis of the shared memmap cache + R-ESC taint + R-PAIR release pairing',
+         'static analysis: borrower path x unguarded release x suspending holders is the hazard; discharged by a recognised user-count guard, absence of a borrower path or absence of suspending holders (present on this code base: one known finding); no raw view escapes any holder; release on every exit; holders do not pin a mode of their own.',
+         'known finding: unconditional release with borrowers (SIGSEGV schedule). Does not decide coherence of values under interleaved writes or absence of crashes per schedule.',
+         'DESIGN.md section 4 C19'),
  'C12': ("def-use identity + escape/taint analysis over `with` blocks + acquire/release pairing (AST/CFG)",
          "static analysis: the index/value reach NumPy unmodified (def-use identity in __getitem__/__setitem__); a taint analysis over every with-block on a map-yielding context manager shows no view of the memory map leaves its context except through a copy; the opener's finally closes map and file and resets the cache on every exit; memmap-only attributes are guarded; the write gate dominates the store; the public contexts forward the mode verbatim. Every block and exit of the package is covered, not a sample of index expressions.",
          "decides the copy/release/delegation discipline, not NumPy's indexing semantics, msync durability or descriptor leaks under interleavings (C19). Trusted: the view/copy classification table of NumPy operations.",
